@@ -83,7 +83,23 @@ Definition old_blanks (prev : store) (mk : (nat -> N) -> stmt) : list N :=
   store_blanks prev ++ flat_map row_blanks (stmt_rows (mk (fun _ => 0))).
 Definition base_of (old : list N) (after : store) : N := 1 + N.max (max_list old) (max_list (store_blanks after)).
 
-Definition step_agrees (bulk : nat) (prev : store) (mk : (nat -> N) -> stmt) (o : obs) : bool :=
+(* frame only: same graph names, every graph that is not a target of the statement is exactly as before *)
+Definition stmt_targets (s : stmt) : list str :=
+  match s with
+  | SConstruct _ _ outs _ _ _ _ => outs
+  | SInsert gs _ | SDelete gs _ => gs
+  | _ => []
+  end.
+Definition frame_agrees (prev : store) (s : stmt) (after : store) : bool :=
+  set_eqb str_eqb (names prev) (names after) &&
+  forallb (fun n => mem str_eqb n (stmt_targets s) || set_eqb triple_eqb (getd prev n) (getd after n)) (names prev).
+
+Definition is_template_err (r : result) : bool := match r with RErr ETemplate => true | _ => false end.
+
+(* exact = the order of the solution rows inside the engine is determined (single-clause pattern).  Otherwise a
+   statement that stops at a template error has processed a scheduler-dependent subset of the rows: then only the
+   outcome and the frame condition are compared. *)
+Definition step_agrees (exact : bool) (bulk : nat) (prev : store) (mk : (nat -> N) -> stmt) (o : obs) : bool :=
   let old := old_blanks prev mk in
   let base := base_of old (o_after o) in
   let s := mk (fun i => base + N.of_nat i) in
@@ -95,14 +111,15 @@ Definition step_agrees (bulk : nat) (prev : store) (mk : (nat -> N) -> stmt) (o 
   | RShow _, None => false
   | _, _ => true
   end &&
-  stores_iso old base st' (o_after o).
+  if negb exact && is_template_err r then frame_agrees prev s (o_after o)
+  else stores_iso old base st' (o_after o).
 
-Definition case := (nat * store * ((nat -> N) -> stmt) * obs)%type.
+Definition case := (bool * nat * store * ((nat -> N) -> stmt) * obs)%type.
 Fixpoint mismatches_from (i : N) (l : list case) : list N :=
   match l with
   | [] => []
-  | (bulk, prev, mk, o) :: r =>
-      if step_agrees bulk prev mk o then mismatches_from (i + 1) r else i :: mismatches_from (i + 1) r
+  | (exact, bulk, prev, mk, o) :: r =>
+      if step_agrees exact bulk prev mk o then mismatches_from (i + 1) r else i :: mismatches_from (i + 1) r
   end.
 
 (* ---- fault runs (C20): statement, schedule table, observed class, observed calls, observed store ---- *)
@@ -115,20 +132,23 @@ Record fobs := mkFObs { f_class : oclass; f_calls : log; f_after : store }.
 
 (* Calls other than lookups must be the same (as multisets: update's goroutines run in any order).  Lookups run in
    an order the model does not fix (errgroup over rows): there only "some failing lookup was consumed" must agree. *)
-Definition fault_agrees (bulk : nat) (prev : store) (mk : (nat -> N) -> stmt) (tbl : list (call_id * fault)) (o : fobs) : bool :=
+Definition fault_agrees (exact : bool) (bulk : nat) (prev : store) (mk : (nat -> N) -> stmt) (tbl : list (call_id * fault)) (o : fobs) : bool :=
   let old := old_blanks prev mk in
   let base := base_of old (f_after o) in
-  let '(r, d) := fexec bulk (table_sched tbl) prev (mk (fun i => base + N.of_nat i)) in
+  let s := mk (fun i => base + N.of_nat i) in
+  let '(r, d) := fexec bulk (table_sched tbl) prev s in
   let nr := filter (fun c => negb (is_read c)) in
   oclass_eqb (class_of r) (f_class o) &&
-  log_eqb (nr (d_log d)) (nr (f_calls o)) &&
   Bool.eqb (existsb is_read (failing_in tbl (d_log d))) (existsb is_read (failing_in tbl (f_calls o))) &&
-  stores_iso old base (d_store d) (f_after o).
+  if negb exact && (is_template_err r || negb (is_empty (failing_in tbl (d_log d)))) then
+    frame_agrees prev s (f_after o)
+  else
+    log_eqb (nr (d_log d)) (nr (f_calls o)) && stores_iso old base (d_store d) (f_after o).
 
-Definition fcase := (nat * store * ((nat -> N) -> stmt) * list (call_id * fault) * fobs)%type.
+Definition fcase := (bool * nat * store * ((nat -> N) -> stmt) * list (call_id * fault) * fobs)%type.
 Fixpoint fmismatches_from (i : N) (l : list fcase) : list N :=
   match l with
   | [] => []
-  | (bulk, prev, mk, tbl, o) :: r =>
-      if fault_agrees bulk prev mk tbl o then fmismatches_from (i + 1) r else i :: fmismatches_from (i + 1) r
+  | (exact, bulk, prev, mk, tbl, o) :: r =>
+      if fault_agrees exact bulk prev mk tbl o then fmismatches_from (i + 1) r else i :: fmismatches_from (i + 1) r
   end.
